@@ -4,16 +4,12 @@ per-check texts live in one reviewable place)."""
 import json, subprocess
 
 NA = {
- "C01": "Completeness of sign->verify is a pure for-all over (seed, message, context, rnd, mode, provenance): no seam, fault, schedule or lifecycle point occurs in it; sampling inputs would be property-based testing, not simulation. (C05's fault-free precondition exercises it incidentally; not reported as a C01 result.)",
  "C02": "Equality of the accept/reject decision with FIPS 204 Verify needs a spec-literal reference and boundary inputs that must be constructed (norm exactly gamma1-beta, weight exactly omega, aligned NTT residues); canonical channel faults never produce them. Pure function of its input.",
  "C03": "Byte-equality with FIPS 204 Sign needs an independent reference implementation; the only seam clause (the 32 bytes come from the caller's generator and nothing else varies) is observed inside C12 (I4, I6) but cannot stand for the property.",
  "C04": "Equality with KeyGen_internal needs a reference implementation; try_keygen_with_rng and keygen_from_seed share one code path, so comparing them to each other decides none of the rare-sample cases the property is about. Pure function of the seed.",
  "C06": "Domain separation is a statement about alternative parses of adversarially aligned byte strings; crafting them is input construction, not a channel fault.",
  "C07": "A pure function of the context length; no seam, fault or interleaving is involved.",
  "C08": "Canonicity of encodings is a for-all over byte strings and coefficient vectors with a combinatorial malformation space; needs structure-aware input generation and crate-private codec access, i.e. fuzzing/enumeration of inputs, not simulation.",
- "C09": "Round-trip identity on all byte strings (incl. extremal patterns) and behavioural equality on all inputs is an input-space property; 'restart from the serialised key' has no crash point that matters because keys are immutable.",
- "C11": "Derived = generated public key for all seeds is an input-space property of an immutable object; no lifecycle point exists at which a fault could change the outcome.",
- "C13": "'No input can make the library panic' quantifies over all byte strings; the inputs that matter are adversarially constructed and unreachable by canonical faults. The fault-reachable part is reported where another statement covers it (RNG faults under C12-I3, a panic on a rotted signature under C05, self-check panics on an accepted rotted key under C10).",
  "C15": "Exactness of scalar arithmetic on whole domains is exhaustive-enumeration/proof territory; there is no nondeterminism or fault for a simulator to own.",
  "C18": "NTT product correctness and 32-bit overflow freedom for adversarial vectors is algebraic; needs constructed inputs and a big-integer reference, no seam involved.",
 }
@@ -33,7 +29,28 @@ def chk(pid, level, text, note, technique, ref, thorough=True):
         d["thorough_cmd"] = f"./check {pid} thorough"
     return d
 
+WORLD_NOTE = ("Decides the slice of the property reachable by lifecycle histories (restart = drop every in-memory replica, reload from stored bytes; "
+              "derive; clone) and canonical storage/channel faults from honest state. Inputs that must be constructed (norms exactly at a bound, aligned NTT "
+              "residues, crafted encodings) are not reached and are not claimed. The reference model is the library's own never-restarted generated key pair "
+              "(refinement between replicas), not an independent FIPS 204 implementation.")
+
 CHECKS = {
+ "C01": chk("C01", "exploration",
+   "World simulation (originator, store, channel, remote party in one process): seeded histories in which private- and public-key replicas are persisted, reloaded after restarts, cloned and derived any number of times, messages are signed in all four modes and delivered to every public-key replica alive. Fault-free configuration oracle: an intact tuple signed by an honest private-key replica verifies under every honest public-key replica, whatever the provenance chain of either; message/context length classes include empty, SHAKE rate boundaries, multi-block, 254 and 255.",
+   WORLD_NOTE + " The for-all over messages/seeds is sampled; the rare-event cases of the rejection loop are reached only as often as the seeded volume allows (reported as reach probes in C05).",
+   "deterministic simulation: seeded lifecycle histories with restarts, replica refinement against a reference pair", "DESIGN.md 4.7"),
+ "C09": chk("C09", "exploration",
+   "World simulation with a fault-injecting store: every private/public key loaded from the store - intact, or after bit rot, stuck-at bytes, lost writes (all 0x00 / all 0xFF: the extremal patterns of the statement) and torn writes - must serialise back to the very bytes it was loaded from, public keys must always load, and after any number of restarts an honest reloaded private key signs byte-identically to the never-restarted reference for the same randomness while an honest reloaded public key decides like the reference on every delivered tuple (valid and faulted).",
+   WORLD_NOTE,
+   "deterministic simulation: crash/restart with only stored bytes surviving, storage faults, replica refinement", "DESIGN.md 4.7"),
+ "C11": chk("C11", "exploration",
+   "World simulation: public-key replicas obtained by generation, by reload from the store and by derivation from generated or reloaded private keys coexist; a derived replica must serialise to the generated key's bytes and must never diverge from the generated reference on any delivered tuple, valid or faulted (the replicas-never-diverge invariant, evaluated after every delivery).",
+   WORLD_NOTE,
+   "deterministic simulation: replica-divergence invariant over seeded lifecycle histories", "DESIGN.md 4.7"),
+ "C13": chk("C13", "exploration",
+   "World simulation in the checked flavour (library self-checks and integer-overflow checks armed): no operation of any history may panic - signing, serialisation and public-key derivation on every private key that deserialisation accepted from a faulted store, verification and deserialisation of bit-rotted, stuck-at, lost and torn artefacts, contexts and messages of every length class. Found and fixed a genuine defect (get_public_key panicked on any accepted-but-inconsistent stored private key; /repo 472da62).",
+   WORLD_NOTE + " 'Arbitrary byte strings' are covered only as far as canonical faults on honest artefacts reach; adversarially constructed inputs (the unreduced inverse-NTT accumulation needs a ~20 sigma alignment) are not reached.",
+   "deterministic simulation: storage/channel fault injection over lifecycle histories, panic = violation", "DESIGN.md 4.7"),
  "C12": chk("C12", "fault_enumeration",
    "Deterministic simulation with the RNG device and the kernel getrandom(2) behind simulator-owned seams. The fault space (which request fails x error-before-write / after-partial-write n=1..31 / after-full-write; kernel: errnos, EINTR bursts, short reads, contract breaches at five delivery offsets) is enumerated completely for every entry point and set; keys, messages, contexts and operation histories are seeded. Invariants: fallible interface only, failure reported, no panic, every drawn bit changes the result, OS functions draw inside every call.",
    "Trusts: the x86-64 `syscall` symbol interposition reaches getrandom 0.2.x; SHAKE256 behaves as a random function for the bit-influence oracle. Evidence of absence is per explored fault point and seeded history, not a proof over all inputs.",
@@ -61,7 +78,7 @@ CHECKS = {
 }
 
 def main():
-    claimed = [p for p in ("C12", "C05", "C10", "C16", "C14", "C17") if p in CHECKS]
+    claimed = [p for p in ("C12", "C05", "C10", "C16", "C14", "C17", "C13", "C09", "C11", "C01") if p in CHECKS]
     hooks_commits = []
     try:
         out = subprocess.run(["git", "-C", "/repo", "log", "--format=%h %s"], stdout=subprocess.PIPE, text=True).stdout
@@ -79,14 +96,14 @@ def main():
             "add_only": True,
         },
         "engines": [
-            {"name": "fipsim", "path": "/verif/sim", "serves_properties": ["C12", "C05", "C10", "C16", "C17"],
+            {"name": "fipsim", "path": "/verif/sim", "serves_properties": ["C12", "C05", "C10", "C16", "C17", "C13", "C09", "C11", "C01"],
              "kind_free_text": "seeded deterministic simulator: SimRng device, SimKernel (getrandom(2) via the libc syscall symbol), object arena, channel/store fault injector; replay from self-contained JSON"},
             {"name": "fipsim-ct", "path": "/verif/ct", "serves_properties": ["C14"],
              "kind_free_text": "trace-recording build of the same simulator (SanitizerCoverage edge + load/store callbacks); oracle = equality of event histories across RNG values"},
         ],
         "checks": [CHECKS[p] for p in claimed],
         "not_applicable": [{"property_id": k, "reason": v} for k, v in sorted(NA.items())],
-        "notes": "Technique family: deterministic simulation with fault injection. See DESIGN.md section 2 for the applicability rule; known_findings.json for findings (C10 defect fixed in /repo 81575a5).",
+        "notes": "Technique family: deterministic simulation with fault injection. See DESIGN.md section 2 for the applicability rule; known_findings.json for findings (C10 defect fixed in /repo 81575a5, C13 defect fixed in /repo 472da62).",
     }
     json.dump(man, open("/verif/MANIFEST.json", "w"), indent=1)
     print("claimed:", claimed, "n/a:", sorted(NA))
